@@ -40,6 +40,9 @@ class Tee(object):
         return getattr(self._end, n)
 
 
+_SOCK = socket
+
+
 class PairSocketModule(object):
     """stands in for the `socket` module inside fsm: the real module (constants, exception classes, everything else),
     except that socket() and create_connection() hand out a pre-connected end"""
@@ -51,13 +54,13 @@ class PairSocketModule(object):
     def socket(self, *a, **k):
         return self.tee
 
-    def create_connection(self, address, timeout=socket._GLOBAL_DEFAULT_TIMEOUT, source_address=None, **k):
-        if timeout is not socket._GLOBAL_DEFAULT_TIMEOUT:
+    def create_connection(self, address, timeout=_SOCK._GLOBAL_DEFAULT_TIMEOUT, source_address=None, **k):
+        if timeout is not _SOCK._GLOBAL_DEFAULT_TIMEOUT:
             self.tee.settimeout(timeout)
         return self.tee
 
     def __getattr__(self, name):
-        return getattr(socket, name)
+        return getattr(_SOCK, name)
 
 
 class ServerAE(aem.AEBase):
